@@ -14,7 +14,7 @@ from vmm.ref import diag as R
 from vmm.ref import searchlib as L
 
 ID = 'C03'
-RULE = ('Hypothesis panel x eligibility x parameters (as C02), n_designs in {1,2,3,5,10,50,10^4}, <=6 geos quick / <=8 thorough; '
+RULE = ('Hypothesis panel x eligibility x parameters (as C02), n_designs in {1,2,3,5,10,50,10^4}, <=6 geos quick / <=8 thorough, plus a flavour with 9-11 geos of which 2-3 may be treated and the rest are control-only; '
         'for every case the full legal space over the admitted geos is enumerated (3^n assignments), constraints and scores '
         'recomputed independently, and the returned list is checked for distinctness, feasibility, score equality, length, '
         'completeness (when fewer than k) and top-k dominance over every omitted feasible design outside the allowed-pruning set. '
@@ -80,24 +80,54 @@ def _share_readings(draw, big):
   return spec
 
 
+@st.composite
+def _few_treatable(draw):
+  """Flavour with a realistic number of geos (9-11) of which only 2-3 may be treated (one of them among the smallest);
+  the others are control-only (at most 6 of them optional), so the legal space stays enumerable. A treatment share range
+  is always present."""
+  n = draw(st.integers(9, 11))
+  spec = draw(G.search_spec(max_geos=n, min_geos=n, constraint_p=0.15, allow_budget=False, elig_style='free', max_dates=20))
+  panel, params = spec['panel'], spec['params']
+  k = draw(st.integers(2, 3))
+  treat = draw(st.lists(st.integers(0, n - 1), min_size=k, max_size=k, unique=True))
+  for i in range(n):
+    panel['level'][i] = draw(st.sampled_from([2, 4, 8, 12, 20, 32]))
+  panel['level'][treat[-1]] = 1
+  panel['flat'] = []
+  optional = set(draw(st.lists(st.sampled_from([i for i in range(n) if i not in treat]), min_size=2, max_size=6, unique=True)))
+  rows = []
+  for i, gid in enumerate(panel['ids']):
+    if i in treat:
+      rows.append([gid] + list(draw(st.sampled_from([(0, 1, 1), (1, 1, 1), (1, 1, 1), (1, 1, 0)]))))
+    else:
+      rows.append([gid] + ([1, 0, 1] if i in optional else [1, 0, 0]))
+  spec['elig'] = {'rows': rows, 'as_index': draw(st.booleans()), 'style': 'few-treatable', 'col_order': None, 'row_labels': None}
+  params['share_q'] = sorted([draw(st.floats(0, 1)), draw(st.floats(0, 1))])
+  params['budget_q'] = None
+  params['n_geos_max'] = None
+  params['edge'] = None
+  spec['history'] = None
+  return spec
+
+
 def strategy(tier):
   big = 6 if tier == 'quick' else 7
   opts = [G.search_spec(max_geos=big, min_geos=2, constraint_p=0.45),
           G.search_spec(max_geos=big, min_geos=3, constraint_p=0.3, elig_style='none'),
           G.search_spec(max_geos=big, min_geos=3, constraint_p=0.35, elig_style='mixed'),
-          _offsetting(min(big, 6)), _share_readings(min(big, 6))]
+          _offsetting(min(big, 6)), _share_readings(min(big, 6)), _few_treatable()]
   if tier == 'thorough':
     opts.append(G.search_spec(max_geos=8, min_geos=8, constraint_p=0.3))
   return st.one_of(*opts)
 
 
-def gt(a, b):
+def gt(a, b, slack=0.0):
   """Score a strictly higher than b (lexicographic, last entry with relative slack)."""
   if tuple(a[:4]) != tuple(b[:4]):
     return tuple(a[:4]) > tuple(b[:4])
   if abs(a[4] - b[4]) > 1e-12:
     return a[4] > b[4]
-  return a[5] > b[5] * (1 + 1e-9) + 1e-300
+  return a[5] > b[5] * (1 + 1e-9 + slack) + 1e-300
 
 
 def analyse(sp):
@@ -110,6 +140,8 @@ def analyse(sp):
     if sp.check_sizes(T, C) == 'out' or sp.check_geo_ratio(T, C) == 'out':
       continue
     vol = sp.check_volume(T, C)
+    if sp.check_geo_ratio(T, C) == 'band' and vol == 'in':
+      vol = 'band'               # sizes on a non-representable ratio boundary: may be kept or dropped
     rd = sp.share_readings(T)
     bud, _ = sp.check_budget(T, C)
     if vol == 'out' or bud == 'out' or (rd['all'] == 'out' and rd['admitted'] == 'out'):
@@ -234,7 +266,7 @@ def run(spec):
       dc += 1
       continue
     got = r['score']
-    cond = 4e-16 / max(1e-300, 1 - d['corr'] ** 2)
+    cond = 2e-15 / max(1e-300, 1 - d['corr'] ** 2)
     if not (tuple(got[:4]) == tuple(sc[:4]) and util.close(got[4], sc[4], 0, 1e-12) and util.close(got[5], sc[5], 1e-9 + cond)):
       viol.append(('C03:score-differs', dict(det, T=sorted(pr[0]), C=sorted(pr[1]), lib=[float(t) for t in got], ref=list(sc))))
   # (vi) order (library's own scores)
@@ -266,11 +298,13 @@ def run(spec):
         for m in Mx:
           if m in Rset:
             continue
-          sc, frag, _ = score_of(sp, m[0], m[1], cache, bmax)
+          sc, frag, d_m = score_of(sp, m[0], m[1], cache, bmax)
           if frag or sc is None:
             d_c += 1
             continue
-          if gt(sc, last[0]):
+          # 1 - rho^2 amplifies the last ulps of rho in the required impact of nearly collinear pairs
+          slack = 2e-15 / max(1e-300, 1 - d_m['corr'] ** 2) + 2e-15 / max(1e-300, 1 - score_of(sp, pairs[-1][0], pairs[-1][1], cache, bmax)[2]['corr'] ** 2)
+          if gt(sc, last[0], slack):
             out.append(('C03:better-design-omitted', dict(det, T=sorted(m[0]), C=sorted(m[1]), its_score=list(sc), worst_returned=list(last[0]),
                                                           worst_T=sorted(pairs[-1][0]), worst_C=sorted(pairs[-1][1]))))
             break
